@@ -45,6 +45,8 @@ func LeafSpecs() []*Spec {
 			}
 		}
 	}
+	// a pattern that begins / ends with whitespace (part of the expression, not decoration)
+	out = append(out, &Spec{Kind: KString, Pattern: "^a+ $"}, &Spec{Kind: KString, Pattern: " a|^b+$"})
 	out = append(out, &Spec{Kind: KBool}, &Spec{Kind: KPattern}, &Spec{Kind: KAny})
 	names := map[string]string{"1": "One", "2": "Two"}
 	for _, u := range []string{"", "sec"} {
